@@ -590,6 +590,21 @@ func pureMerge(b *ssa.BasicBlock) bool {
 
 func returnPaths(fn *ssa.Function) []retPath {
 	var out []retPath
+	for _, b := range fn.Blocks {
+		if ret, ok := b.Instrs[len(b.Instrs)-1].(*ssa.Return); ok {
+			for _, p := range splitPaths(append([]ssa.Value{}, ret.Results...), b) {
+				p.ret = ret
+				out = append(out, p)
+			}
+		}
+	}
+	return out
+}
+
+// splitPaths: the ways the values vals (used in block at) are produced, see retPath.
+func splitPaths(vals []ssa.Value, at *ssa.BasicBlock) []retPath {
+	var out []retPath
+	var ret *ssa.Return
 	var expand func(ret *ssa.Return, vals []ssa.Value, from, edgeTo *ssa.BasicBlock, depth int)
 	expand = func(ret *ssa.Return, vals []ssa.Value, from, edgeTo *ssa.BasicBlock, depth int) {
 		// the phi block to split: the deepest block that defines a phi among vals and dominates `from`
@@ -628,10 +643,6 @@ func returnPaths(fn *ssa.Function) []retPath {
 			expand(ret, nv, pred, pb, depth+1)
 		}
 	}
-	for _, b := range fn.Blocks {
-		if ret, ok := b.Instrs[len(b.Instrs)-1].(*ssa.Return); ok {
-			expand(ret, append([]ssa.Value{}, ret.Results...), b, nil, 0)
-		}
-	}
+	expand(ret, vals, at, nil, 0)
 	return out
 }
